@@ -21,8 +21,11 @@ def judge(fam, vec, asg):
 
     cls = getattr(cvss, T.CLASSNAME[fam])
     try:
-        obj = cls(vec)
+        first = cls(vec).scores()
+        obj = cls(vec)          # the checks run on a second object built from the same string
         sc = obj.scores()
+        if sc != first:
+            return "a second object built from the same string scores %r, the first %r" % (sc, first), None
         sv = obj.severities()
         js = obj.as_json()
         rh = obj.rh_vector()
